@@ -12,14 +12,15 @@ LEAN_MODULES = ['Pfst.Props.C12']
 THEOREMS = [
     'Pfst.C12.run_restores', 'Pfst.C12.runList_restores', 'Pfst.C12.registry_balanced', 'Pfst.C12.registry_restored',
     'Pfst.C12.no_internal_error', 'Pfst.C12.registry_no_stale', 'Pfst.C12.next_enter_ok',
-    'Pfst.C12.put_skeleton_restores', 'Pfst.C12.unpar_skeleton_restores',
+    'Pfst.C12.put_skeleton_restores', 'Pfst.C12.unpar_skeleton_restores', 'Pfst.C12.root_replace_skeleton_restores',
+    'Pfst.C12.root_replace_guard_first',
     'Pfst.C12.failed_is_identity', 'Pfst.C12.failed_state_eq', 'Pfst.C12.next_edit_ok', 'Pfst.C12.failed_prefix_dropped',
     'Pfst.C12.withStep_failed', 'Pfst.C12.withStep_registry', 'Pfst.C12.raw_fallback_atomic', 'Pfst.C12.putOne_registry',
 ]
 RULE = ('(a) correspondence: generated well-nested histories (with-blocks, exceptions raised at every depth and position, '
         'try/except continuing, the unpar manual skeleton, the _put_one/_put_slice raw-fallback skeleton, the put_src(reparse) '
-        'with-block, 1-3 real trees at once, same node / other node of the same tree / force / raw) run against the real '
-        '_Modifying class and the real unpar/_put_one/_put_slice/put_src functions (callees stubbed to run the nested history) '
+        'with-block, the root branch of FST.replace (guards incl. own-root / consumed before the with-block), 1-3 real trees at once, same node / other node of the same tree / force / raw) run against the real '
+        '_Modifying class and the real unpar/_put_one/_put_slice/put_src/replace functions (callees stubbed to run the nested history) '
         'on real FST nodes; the registry _MODIFYING canonicalised as (root index, node index, depth) after EVERY '
         'enter/success/fail plus the propagating exception class is compared with the Lean model. distinct = distinct (history, '
         'trees); non-trivial = an exception is raised inside at least one modification. (b) sweep: trees = corpus programs '
@@ -39,7 +40,8 @@ TRUSTED = [
     'modelled: fst_core._MODIFYING (insertion-ordered dict), _Modifying.enter/success/fail/__exit__ registry effects incl. '
     'same-node nesting count, force, the RuntimeError for a different node, enter raising before any registry change; the '
     'control skeletons of FST.unpar (manual enter/fail/success), _put_one and _put_slice (guards, handler in with, raw '
-    'fallback in a second with, which exception classes fall through); abstract edit step validate>>apply',
+    'fallback in a second with, which exception classes fall through), put_src(action=reparse), the root branch of '
+    'FST.replace as repaired by C12-F2/F3 (all guards before the with); abstract edit step validate>>apply',
     'not modelled: the f-string debug-text bookkeeping of enter()/success() (fields fst/field/data; success() may splice '
     'source AFTER releasing the registry entry); the put handlers themselves (hundreds of raise sites) - whether each '
     'validates before it mutates is evaluated per failing call by the sweep on the real code, not proved',
@@ -169,8 +171,8 @@ def _run_sweep(ctx, items):
 
 def sweep(ctx):
     q = ctx.quick
-    progs = _programs(ctx, 380 if q else 3500, 16 if q else 250)
-    items = _items(ctx, progs, 2 if q else 3, 10, 1 if q else 4, 110 if q else 600, 90 if q else 1200, 25 if q else 80)
+    progs = _programs(ctx, 300 if q else 3500, 14 if q else 250)
+    items = _items(ctx, progs, 2 if q else 3, 10, 1 if q else 4, 90 if q else 600, 70 if q else 1200, 25 if q else 80)
     n_raise, n_ok = _run_sweep(ctx, items)
     ctx.notes['raising_calls_judged'] = n_raise
     ctx.notes['non_raising_calls'] = n_ok
